@@ -164,6 +164,7 @@ type scriptOps struct {
 	cfgHist []sumworld.HeadLabel // heads ever stored
 	viol    []core.Violation
 	unscriptedRemote int
+	lastTl           string // timeline of the lookup response served last (schedules: unscripted tile reads follow it)
 	keyReads int
 	gate    func(op, file string) // optional scheduling gate (C14)
 	faultsServed int
@@ -261,7 +262,11 @@ func (o *scriptOps) tileBytes(f absFile, lab *tileLab) ([]byte, error) {
 
 func (o *scriptOps) log(c opCall) { o.calls = append(o.calls, c) }
 
-func (o *scriptOps) ReadRemote(path string) ([]byte, error) {
+func (o *scriptOps) ReadRemote(path string) ([]byte, error) { return o.ReadRemoteTl(path, "") }
+
+// ReadRemoteTl: hint names the timeline an unscripted tile read is answered from (a split-view server answers
+// each connection consistently with the tree head it gave that connection)
+func (o *scriptOps) ReadRemoteTl(path string, hint string) ([]byte, error) {
 	f, ok := o.parseFile(path)
 	if o.gate != nil {
 		o.gate("ReadRemote", f.String())
@@ -294,8 +299,19 @@ func (o *scriptOps) ReadRemote(path string) ([]byte, error) {
 			}
 			s = scripted{resp: &respLabel{Kind: "resp", Rec: sumworld.RecLabel{Kind: "true", Tl: "A", ID: f.K}, Head: sumworld.HeadLabel{Kind: "good", Tl: "A", N: o.served["A"]}}}
 		} else {
-			s = scripted{lab: &tileLab{Kind: "true", Tl: "A"}}
+			// tile traffic below the abstraction of a schedule: the server answers from the timeline of the
+			// lookup response it gave last
+			tl := "A"
+			if hint != "" {
+				tl = hint
+			} else if o.lastTl != "" {
+				tl = o.lastTl
+			}
+			s = scripted{lab: &tileLab{Kind: "true", Tl: tl}}
 		}
+	}
+	if f.Kind == "lookup" && s.resp != nil && s.resp.Kind == "resp" && s.resp.Head.Kind == "good" && (s.resp.Head.Tl == "A" || s.resp.Head.Tl == "B") {
+		o.lastTl = s.resp.Head.Tl
 	}
 	if s.fault {
 		o.faultsServed++
